@@ -55,7 +55,8 @@ class _Func:
 SUBJECTS = {"Solve", "HandleError", "CheckFlag", "PyWrapSolve", "Init", "Reset", "Finalize"}
 
 
-_THIS = re.compile(r"\bthis\s*->\s*")          # `this->x` is `x` (no local of these functions shadows a member)
+_THIS = re.compile(r"\bthis\s*->\s*|\bstd\s*::\s*(?=(?:pow|log10|log|exp|sqrt|fabs|abs|min|max|fmin|fmax|memcpy|memmove|copy|copy_n)\s*\()")
+# `this->x` is `x` (no local of these functions shadows a member); `std::pow` is `pow`
 
 
 def _helpers(sk, but):
@@ -250,10 +251,19 @@ def _guards(F, conds, st, keep=()):
             continue
         gp = F.pos.get(id(g[3]), 0)
         toks = _checkflag(F.expand(g[1], gp, keep=keep))
+        # `++n > m` tests the incremented n; `n++ >= m` tests the value before, (n - 1) in terms of the incremented one
+        toks = list(toks)
+        for j in range(len(toks) - 1, 0, -1):
+            if toks[j] == "++" and cstmt.IDENT.match(toks[j - 1]) and not (j > 1 and toks[j - 2] in (".", "->")):
+                toks[j - 1:j + 1] = ["(", toks[j - 1], "-", "1", ")"]
         toks = tuple(t for j, t in enumerate(toks) if not (t == "++" and j + 1 < len(toks) and cstmt.IDENT.match(toks[j + 1])
                                                             and not (j and (cstmt.IDENT.match(toks[j - 1]) or toks[j - 1] in (")", "]")))))
         names = {t for t in toks if cstmt.IDENT.match(t)}
-        stale = any(gp < i < sp for nm in names for i, op, rhs, decl in F.defs.get(nm, ())) or any(F.pos.get(id(lp), 0) > gp and cstmt.written(lp) & names for lp in loops)
+        # a guard clause (`if (c) { ..; return; }` before `st`): what its leaving arm writes is never seen by `st`
+        inside = {id(x) for x, _ in cstmt.walk(g[3])}
+        own = set() if id(st) in inside else {F.pos[i] for i in inside if i in F.pos}
+        stale = any(gp < i < sp and i not in own for nm in names for i, op, rhs, decl in F.defs.get(nm, ())) \
+            or any(F.pos.get(id(lp), 0) > gp and cstmt.written(lp) & names for lp in loops)
         if not stale:
             out.append((g[0], toks, g[2], g[3]))
     return out
@@ -295,13 +305,39 @@ def _is_call(st, callee):
     return ac if ac and ac[1] == callee else None
 
 
+def _latched(F, x, st, FLAG):
+    """`bool done = false; for (..) { .. if (c) { done = true; break; } } if (done) return ..;` -- a test on a local that is only
+    ever set to constants holds exactly when the one assignment of a true value ran last: the guards of that assignment stand
+    in for the test, provided control leaves the loops around the assignment right after it and the flag is not written
+    between there and `st`.  -> the guards, or None when `x` is not such a test"""
+    toks = [t for t in x[1] if t not in ("(", ")")]
+    if len(toks) != 1 or not x[2] or not cstmt.IDENT.match(toks[0]):
+        return None
+    ds = F.defs.get(toks[0], ())
+    if len(ds) < 2 or any(op != "=" or rhs is None or cstmt.value(rhs, CONSTS) is None for i, op, rhs, decl in ds):
+        return None
+    true_sites = [i for i, op, rhs, decl in ds if cstmt.value(rhs, CONSTS)]
+    sp = F.pos[id(st)]
+    if len(true_sites) != 1 or true_sites[0] >= sp or F.written_between({FLAG}, true_sites[0], sp):
+        return None
+    site, conds = F.seq[true_sites[0]]
+    around = [g[3] for g in conds if g[0] in ("for", "while")]
+    if any(id(st) in {id(y) for y, _ in cstmt.walk(lp)} for lp in around) or len(around) > 1:
+        return None
+    if around:
+        nxt = [blk[1][j + 1] for blk, _ in cstmt.walk(around[0]) if blk[0] == "block" for j, y in enumerate(blk[1][:-1]) if y is site]
+        if not nxt or nxt[0][0] != "break":
+            return None
+    return [y for y in _guards(F, conds, site, keep=(FLAG,)) if y[0] == "if"]
+
+
 def _r2_handle_error(ctx, label, F, FLAG):
     rets = [(s, c) for s, c in F.seq if s[0] == "return"]
     nsucc = 0
     odd = []
     for s, c in rets:
         g = _guards(F, c, s, keep=(FLAG,))
-        ifs = [x for x in g if x[0] == "if"]
+        ifs = [y for x in g if x[0] == "if" for y in (_latched(F, x, s, FLAG) or [x])]
         # is this an exit that can report success at all?
         v0 = cstmt.value(s[1], {FLAG: 0, **CONSTS})
         if v0 is None or v0 not in (0, 1):
@@ -336,8 +372,12 @@ def _r2_handle_error(ctx, label, F, FLAG):
             # the tested flag is the returned-on flag: no write to it between the test and the return
             rp = F.pos[id(s)]
             est = [x for x in ifs if all(cstmt.truth(x[1], {FLAG: v, **CONSTS}) is (not x[2]) for v in NEG)]
-            starts = [F.pos.get(id(x[3]), 0) for x in (est or ifs)]
-            unchanged = any(not F.written_between({FLAG}, p, rp) for p in starts) if est else not F.written_between({FLAG}, min(starts or [rp]), rp)
+            def since(x):
+                """is the flag written between the test `x` and the return?  (not counting the leaving arm of a guard clause)"""
+                inside = {id(y) for y, _ in cstmt.walk(x[3])}
+                own = set() if id(s) in inside else {F.pos[i] for i in inside if i in F.pos}
+                return any(F.pos.get(id(x[3]), 0) < i < rp and i not in own for i, op, rhs, decl in F.defs.get(FLAG, ()))
+            unchanged = any(not since(x) for x in est) if est else not any(since(x) for x in ifs)
             ctx.check(unchanged, "R2", f"{label}:HandleError:flag unchanged before success#{nsucc}", (CV, 0), "the tested flag is the one returned on",
                       found=f"{FLAG} is written between its test and the return")
     if odd:
@@ -348,9 +388,44 @@ def _r2_handle_error(ctx, label, F, FLAG):
         ctx.ok("R2", f"{label}:HandleError:success exits", (CV, 0), "success exits: at entry (nothing to repair) and after a completed level")
     else:
         ctx.unrec("R2", f"{label}:HandleError:success exits", (CV, 0), f"expected a success exit at entry and one after a completed level, found {nsucc}")
-    last = F.body[1][-1] if F.body[0] == "block" and F.body[1] else ("?",)
-    ctx.check(last[0] == "return" and cstmt.value(last[1], CONSTS) == 1, "R2", f"{label}:HandleError:falls through to failure", (CV, 0),
-              "when all levels are exhausted the function returns NAUNET_FAIL", found=cstmt.txt(last[1]) if last[0] == "return" else last[0])
+    # ---- the exit taken when the ladder runs out of levels: the function executed with the ladder loop stepped over (what the loop
+    # writes is unknown afterwards, the flag is still a failure)
+    key = f"{label}:HandleError:falls through to failure"
+    ladder = [s for s, c in F.seq if s[0] in ("for", "while", "dowhile") and any(_is_call(x, "CVodeReInit") for x, _ in cstmt.walk(s))]
+    if not ladder:
+        last = F.body[1][-1] if F.body[0] == "block" and F.body[1] else ("?",)
+        ctx.check(last[0] == "return" and cstmt.value(last[1], CONSTS) == 1, "R2", key, (CV, 0),
+                  "when all levels are exhausted the function returns NAUNET_FAIL", found=cstmt.txt(last[1]) if last[0] == "return" else last[0])
+        return
+    ends = {}
+    try:
+        for v in NEG:
+            sy = cstmt.Sym(concrete={**CONSTS, FLAG: v})
+
+            def over(st, sy=sy):
+                if st is not ladder[0]:
+                    return False
+                for nm in cstmt.written(st) - {FLAG}:
+                    if nm in sy.a:
+                        sy.a[nm] = sy.opaque(nm)
+                    else:
+                        sy.s[nm] = sy.opaque(nm)
+                        sy.c.pop(nm, None)
+                return True
+            sy.skip = over
+            r = sy.run(F.body)
+            ends[v] = cstmt.value(r[1], sy._env()) if r and r[0] == "return" else ("falls off the end" if r is None else r[0])
+    except cstmt.Unknown as ex:
+        ctx.unrec("R2", key, (CV, 0), f"the way out of the exhausted ladder is not understood: {ex}")
+        return
+    wrong = {v: e for v, e in ends.items() if e != 1}
+    if not wrong:
+        ctx.ok("R2", key, (CV, 0), "when all levels are exhausted the function returns NAUNET_FAIL")
+    elif any(e == 0 for e in wrong.values()):
+        ctx.bad("R2", key, (CV, 0), "when all levels are exhausted the function returns NAUNET_FAIL", expected="return NAUNET_FAIL after the last level",
+                found=f"NAUNET_SUCCESS with the last flag = {[v for v, e in wrong.items() if e == 0][0]}")
+    else:
+        ctx.unrec("R2", key, (CV, 0), f"cannot follow what the function returns after the last level: {sorted(set(map(str, wrong.values())))}")
 
 
 def _loop_var(loop):
@@ -702,7 +777,8 @@ def _r4(ctx):
         ctx.bad("R4", "Solve:try", (OD, 0), f"expected one try block around the integration, found {len(tries)}")
     else:
         t = tries[0]
-        integ = [x[1] for x, _ in cstmt.walk(t[1]) if x[0] == "expr" and "integrate_adaptive" in x[1]]
+        integ_st = [x for x, _ in cstmt.walk(t[1]) if x[0] == "expr" and "integrate_adaptive" in x[1]]
+        integ = [x[1] for x in integ_st]
         caught = ["".join(d) for d, b in t[2]]
         type_ok = thrown is not None and any(thrown in c or "std::exception" in c or c == "..." for c in caught)
         ctx.check(type_ok, "R4", "Solve catches what the observer throws", (OD, 0),
@@ -716,8 +792,13 @@ def _r4(ctx):
             args = cstmt._top_split(e[k + 2:-1], (",",)) if e[k + 1:k + 2] == ["("] and e[-1] == ")" else []
             a = [cstmt.norm(x) for x in args]
             back = [src for s, c in SF.seq if SF.pos[id(s)] > SF.pos[id(t)] and s[0] in ("for", "expr") for d, src, n in (cstmt.copies(s) or []) if d == STATE]
-            args_ok = len(a) == 7 and cstmt.IDENT.match(a[2]) and cstmt.value(args[3], {}) == 0 and a[4] == DT and a[5] == DT and cstmt.IDENT.match(a[6]) \
-                and (not back or a[2] in back)
+            ipos = SF.pos.get(id(integ_st[0]), 0)
+
+            def named(x):
+                """an argument with once-defined locals (`const double t_end = dt;`) replaced by their definitions"""
+                return SF.expand(x, ipos)
+            args_ok = len(a) == 7 and cstmt.IDENT.match(a[2]) and cstmt.value(named(args[3]), CONSTS) == 0 and cstmt.same_value(" ".join(named(args[4])), DT) is True \
+                and cstmt.same_value(" ".join(named(args[5])), DT) is True and cstmt.IDENT.match(a[6]) and (not back or a[2] in back)
             ctx.check(bool(args_ok), "R4", "integrate over [0, dt] with the observer", (OD, 0), f"integrate_adaptive(.., y, 0.0, {DT}, {DT}, observer)", found=cstmt.txt(e)[-90:])
             OBS = a[6] if len(a) == 7 else None
         else:
